@@ -1,4 +1,6 @@
 import AkVerif.Lemmas.LLC03
+import AkVerif.Lemmas.LLSession
+import AkVerif.Lemmas.LLTransfer2
 /-!
 # C03 — left-recursive grammars are rejected; accepted grammars always terminate
 
@@ -7,9 +9,8 @@ treatment of an already examined nullable symbol), `LL.construct`, `LL.Parser.pa
 `Reach1 G N X Y` is "`X → α Y β` is a rule of the dictionary `G` with every symbol of `α` in `N`";
 `Plus` its transitive closure.
 
-What is *not* a theorem here: that a cycle of the factorised dictionary (on which the constructor
-runs the check) exists iff the user's dictionary has one; that step is covered by the
-correspondence and by the oracle (reference left-recursion test on the user's productions).
+The check runs on the factorised dictionary; `user_cycle_iff` transfers its verdict to the
+dictionary the user wrote (both `smart_factorization` values).
 -/
 namespace C03
 open LL Ak
@@ -40,6 +41,34 @@ theorem accepted_no_cycle (inp : CtorIn) (P : Parser) (hP : construct inp = .ok 
   exact ((recCheck_rec_iff hnd (fun k hk => h1.disjoint k hk) hknown (fun k hk => mem_sortedKeys.2 hk)
     (fun s hs => Or.inr (mem_sortedKeys.1 hs))).2).1 hB.hR
 
+/-- **Factorisation neither creates nor hides left recursion**: for a constructed parser, the
+factorised dictionary (with the nullable set the constructor computed) has a cycle iff the *user's*
+dictionary has one w.r.t. its own least nullable set (`nullables` applied to the user's dictionary;
+proved least: `LL.nullables_least`).  Uses: nullables agree on non-helper symbols, every helper has
+an expansion, helper chains are well-founded (path length). -/
+theorem user_cycle_iff (inp : CtorIn) (P : Parser) (hP : construct inp = .ok P) (NU : List Sym)
+    (hNU : nullables P.userProds = .ok NU) :
+    (∃ X, Plus (Reach1 P.prods P.nullables) X X) ↔ (∃ X, Plus (Reach1 P.userProds NU) X X) :=
+  built_cycle_iff (construct_built hP) hNU
+
+/-- an accepted grammar is not left recursive — stated on the productions **the user supplied** -/
+theorem accepted_user_acyclic (inp : CtorIn) (P : Parser) (hP : construct inp = .ok P) (NU : List Sym)
+    (hNU : nullables P.userProds = .ok NU) : ¬ ∃ X, Plus (Reach1 P.userProds NU) X X :=
+  LL.accepted_user_acyclic hP hNU
+
+/-- never a false alarm: when the constructor's stages before the check succeed (terminal names,
+`_create_productions`, `_factorize_productions`, nullables) and the check answers
+`GrammarIsRecursive`, some symbol of the **user's** grammar reaches itself without consuming a token.
+(The stages are explicit hypotheses because `construct` also has other error exits.) -/
+theorem rejected_user_cyclic (inp : CtorIn) (U G : Prods Sym) (S NG NU : List Sym)
+    (hD : (tokenNames inp).any (fun t => hasDunder t.name) = false)
+    (hU : createProds 0 inp.prods [] = .ok U)
+    (hF : factorize (tokenNames inp) U inp.smart = .ok (G, S))
+    (hNG : nullables G = .ok NG) (hNU : nullables U = .ok NU)
+    (hrec : recCheck G (sadd (tokenNames inp) endSym) NG (sortedKeys G) = .error .grammarIsRecursive) :
+    ∃ X, Plus (Reach1 U NU) X X :=
+  LL.rejected_user_cyclic hD hU hF hNG hNU hrec
+
 /-- **Stack bound** (generic): under the hypotheses of the termination theorem, a stack satisfying
 the invariant has at most `(|tokens| + 1) · (R + 1)` frames, `R` bounding the ranks of its symbols:
 from the bottom frame to the top one the pairs `(|tokens| − start, rank sym)` strictly decrease
@@ -57,7 +86,7 @@ theorem stack_bound_parse (inp : CtorIn) (P : Parser) (hP : construct inp = .ok 
     ∃ B, ∀ (raw : List (List Char × List Char)) (n : Nat) (st : List (Frame Sym)),
       iter P.cfg (P.tokens raw) n (initStack startSym P.start endSym) = .cont st →
         st.length ≤ ((P.tokens raw).length + 1) * B :=
-  stack_bound_of_built (construct_built hP)
+  stack_bound_of_built (construct_built hP).core (built_struct (construct_built hP)).1
 
 /-- **Termination of the parse loop** (generic), for every table — ambiguous or not — and every
 token list: if the computed nullable set is closed under the rules, a rank decreases along
@@ -74,7 +103,7 @@ closure from the exit of the nullable loop, the rank from `recCheck … = ok` (o
 theorem parse_terminates (inp : CtorIn) (P : Parser) (hP : construct inp = .ok P)
     (raw : List (List Char × List Char)) :
     ∃ k, ∀ fuel, k ≤ fuel → P.parse raw fuel ≠ .error .outOfFuel :=
-  parse_terminates_of_built (construct_built hP) (built_struct (construct_built hP)).1 raw
+  parse_terminates_of_built (construct_built hP).core (built_struct (construct_built hP)).1 raw
 
 /-- **Totality**: on every input `parse` returns a tree or raises `ParsingError` — it neither loops
 nor hits one of the `IndexError` places of the loop (`tokens[cur]` behind `$END$`, an empty stack,
@@ -82,7 +111,17 @@ nor hits one of the `IndexError` places of the loop (`tokens[cur]` behind `$END$
 theorem parse_total (inp : CtorIn) (P : Parser) (hP : construct inp = .ok P)
     (raw : List (List Char × List Char)) :
     ∃ k, ∀ fuel, k ≤ fuel → (∃ t, P.parse raw fuel = .ok t) ∨ P.parse raw fuel = .error .parsingError :=
-  parse_total_of_built (construct_built hP) raw
+  parse_total_of_built (construct_built hP).core (built_struct (construct_built hP)).1
+    (built_struct (construct_built hP)).2 raw
+
+/-- **Totality of `parse(text, start_symbol_name=s)`**, any `s`: `AssertionError` when `s` is not a key
+of the factorised dictionary, otherwise a tree or `ParsingError` — the explicit start symbol cannot
+make the loop run away either. -/
+theorem parse_from_total (inp : CtorIn) (P : Parser) (hP : construct inp = .ok P) (s : List Char)
+    (raw : List (List Char × List Char)) :
+    ∃ k, ∀ fuel, k ≤ fuel → (∃ t, P.parseFrom s raw fuel = .ok t) ∨
+      P.parseFrom s raw fuel = .error .parsingError ∨ P.parseFrom s raw fuel = .error .assertion :=
+  parseFrom_total (construct_built hP) s raw
 
 /-! Non-vacuity: the defect witness `E → A E X | Y ; A → Z | ε` (left recursion hidden behind the
 earlier-sorted nullable `A`) is rejected with `GrammarIsRecursive` by the model of the repaired
